@@ -32,6 +32,7 @@ RULE = ("cases: (network, seed of 16..64 bytes incl. the BIP vectors, path of de
         "too large index, malformed paths, hardened on public) are issued FIRST on the master, on every intermediate node, "
         "on both sides of the commutation, on the shared node between calls, on each child handed out (it stays cached) "
         "and on the late public copy; children(max_level, start_index, include_hardened) as a derivation entry point; "
+        "one path asked of one node with and without the '.pub' suffix in either order; "
         "child texts re-parsed through parse.<bip>, <bip>_prv/_pub, hierarchical_key, secret, parse(text); Electrum "
         "wallets private vs public; kind 'text': (flavour bip32/49/84 weighted to 49/84, network defining it, seed, path of depth 0..6, "
         "origin of the root: bip32_seed / 'H:<hex>' seed text / <bip>_deserialize / each parse entry point, way of deriving: "
@@ -39,8 +40,8 @@ RULE = ("cases: (network, seed of 16..64 bytes incl. the BIP vectors, path of de
         "as_private=False child of the private parent and the child of a public-only ancestor read from text or blob: ALL text "
         "spellings (hwif / as_text with as_private default, keyword, positional, True, False; repr, str, format; ku_output, "
         "ku_output_for_hk; serialize default / True / False) in a shuffled order with repeats as one history, then both texts "
-        "read back through parse.<bip>, <bip>_prv/_pub, hierarchical_key, secret, parse(text) and <bip>_deserialize: same class, "
-        "same fields, same texts by the spellings again, and a further child of the node read back. Distinct by (kind, network, seed, path / fields / call list / queries); non-trivial when at least "
+        "read back through parse.<bip>, <bip>_prv/_pub, hierarchical_key, secret, parse(text) and <bip>_deserialize: same "
+        "fields, same texts by the spellings again, and a further child of the node read back. Distinct by (kind, network, seed, path / fields / call list / queries); non-trivial when at least "
         "one child derivation or one parse is involved (depth-0 master-only cases are trivial).")
 ASSUMPTIONS = [
     "vmon/refs/bip32.py is correct (self-tested on every run: BIP32 test vectors 1 and 2, every chain, both texts; "
@@ -66,9 +67,14 @@ ASSUMPTIONS = [
     "repr / str / ku_output* are free in format, but every Base58Check string carrying 78 bytes that they embed must be one of this "
     "node's own texts (ku 'public_version' = the public one); serialize(as_private) = the 74 reference bytes (default: either half "
     "of a private node is tolerated); asking a public-only node for its private form is not judged",
-    "a round trip preserves the variant: the node read back is of the same class (type identity) as the node that produced the text "
-    "(its public_copy for the public text), since the variant decides the text prefix and the address type",
+    "a round trip preserves the variant: the node read back hands out, by every spelling, the texts of the same flavour as the node "
+    "that produced the text, and so does a child derived from it (the Python class of the node is not judged)",
     "keys.<bip>_deserialize(4 version bytes + 74 bytes) is called with the version bytes of the flavour only",
+    "the version bytes themselves are judged only where the BIP fixes them: on BTC the published test-vector texts are compared "
+    "as literals, on XTN the texts carry the BIP's testnet versions 04358394 / 043587CF (kind 'vectors', run by the first derive shard)",
+    "a public-only parent asked for a PRIVATE child (subkey(as_private=True)) may refuse: not judged when the long-lived and the "
+    "fresh node refuse alike; how many children children() / an Electrum range hands out is a required counter, not an oracle",
+    "chain code / parent fingerprint / serialize(): the octets are compared, bytes-like carriers (bytearray) are accepted",
 ]
 EXPLANATION = ("held = every observed secret exponent, public pair, chain code, depth, parent fingerprint, child number and "
                "xprv/xpub (yprv/zprv...) text equalled the reference; public derivation equalled the public half of private "
@@ -126,6 +132,17 @@ class Ctx(object):
             for b in BIPS:
                 prv = getattr(net.parse, "_%s_prv_prefix" % b, None)
                 pub = getattr(net.parse, "_%s_pub_prefix" % b, None)
+                if prv is None and pub is None:
+                    # not configured, or the (private) attribute goes by another name in this version: ask the public
+                    # text builder of the network which 4 version bytes it puts in front (raises when there are none)
+                    vs = []
+                    for as_private in (True, False):
+                        st, t = observe(getattr(net, "%s_as_string" % b, None), b"\0" * 74, as_private)
+                        raw = B58.decode_check(t) if st == "ok" and isinstance(t, str) else None
+                        vs.append(raw[:4] if raw is not None and len(raw) == 78 else None)
+                    prv, pub = vs
+                    if prv and pub:
+                        rec.ev("prefix_from_public_api")
                 if prv and pub:
                     pf[b] = (bytes(prv), bytes(pub))
             if "bip32" not in pf:
@@ -166,6 +183,8 @@ def diff_fields(got, ref, private):
         exp["secret"] = None
     for name in ("secret", "public_pair", "chain_code", "depth", "parent_fingerprint", "child_number"):
         g = got[name]
+        if name in ("chain_code", "parent_fingerprint") and isinstance(g, (bytearray, memoryview)):
+            g = bytes(g)          # the statement fixes the 32 / 4 octets, not the Python type carrying them
         if isinstance(g, BaseException) or g != exp[name] or (name in ("chain_code", "parent_fingerprint") and not isinstance(g, bytes)):
             return name, g, exp[name]
     return None
@@ -285,6 +304,28 @@ def freeze(x):
 # ---------------------------------------------------------------------------------------------------------
 # kind "derive"
 
+MARK_NAMES = {"H": "H", "p": "p", "'": "tick"}
+
+
+def count_path_classes(path, marks, rec):
+    """which regions of the quantified domain a derived path reaches (index classes, depth, hardened markers used)"""
+    h = 0
+    for i in path:
+        low = i & (HARD - 1)
+        rec.ev("index.hardened" if i >= HARD else "index.normal")
+        if low >= 1 << 24:
+            rec.ev("index.ge_2^24")          # the top byte of ser32(i) is in use
+        if low == HARD - 1:
+            rec.ev("index.max")
+        if i >= HARD:
+            rec.ev("marker." + MARK_NAMES.get(marks[h % len(marks)], "other"))
+            h += 1
+    if len(path) >= 255:
+        rec.ev("depth.255")
+    elif len(path) >= 2:
+        rec.ev("depth.2..8")
+
+
 def chk_derive(case, rec, ctx):
     code, seed, path = case["net"], case["seed"], list(case["path"])
     marks = case.get("marks", "H")
@@ -301,6 +342,7 @@ def chk_derive(case, rec, ctx):
         rec.ev("reference_invalid_key")
         return
     rn = rnodes[-1]
+    count_path_classes(path, marks, rec)
 
     def V(mech, observed, expected):
         rec.violation(mech, case, observed, expected)
@@ -368,6 +410,10 @@ def chk_derive(case, rec, ctx):
     do_queries(P, q_pub, rec, ctx)
     do_queries(pubP, q_pub, rec, ctx)
     rec.ev("commutation")
+    if tail:
+        rec.ev("commutation.nonempty_tail")       # at least one CKDpub step from a public-only parent
+        if cut:
+            rec.ev("commutation.below_hardened")
     st, a = observe(lambda: P.subkey_for_path(tail_text).public_copy())
     st2, b = observe(pubP.subkey_for_path, tail_text)
     if st != "ok" or st2 != "ok":
@@ -442,6 +488,8 @@ def gen_seed(rng, k):
 
 def run_derive(spec, rec, ctx):
     rng = shard_rng(spec["seed"], PROPERTY, spec["tier"], spec["shard"])
+    if spec["shard"] == 0:
+        run_vectors(spec, rec, ctx)          # (draws nothing from the rng; no process of its own: start-up costs more than it)
     for k in range(spec["n"]):
         depth = rng.choice([0, 1, 1, 2, 2, 3, 3, 4, 5, 6, 7, 8])
         if k == 7 and spec["shard"] == 0:
@@ -477,6 +525,7 @@ def chk_synthetic(case, rec, ctx):
 
     def V(mech, observed, expected):
         rec.violation(mech, case, observed, expected)
+    rec.ev("nets.roundtrip.%s.%s" % (bip, "prv" if private else "pub"))
     st, node, text = make_node(ctx, code, bip, ref, private, rec)
     if st != "ok" or node is None:
         return V("%s.roundtrip.parse_failed" % bip, node, "a node for %s" % text)
@@ -509,6 +558,7 @@ def chk_synthetic(case, rec, ctx):
         hard = i >= HARD
         st, ch = observe(node.subkey, i & (HARD - 1), hard)
         if not private and hard:
+            rec.ev("nets.hardened_from_public." + bip)
             if st == "ok":
                 return V("%s.hardened_from_public_accepted" % bip, repr(ch)[:100], "an exception")
             continue
@@ -540,6 +590,7 @@ def chk_synthetic(case, rec, ctx):
                 return V("%s.roundtrip.%s" % (bip, d[0]), {"field": d[0], "got": d[1], "text": exp}, d[2])
         if private and not hard:
             rec.ev("commutation")
+            rec.ev("nets.commutation." + bip)
             st, viapub = observe(pubnode.subkey, i)
             if st != "ok":
                 return V("%s.commute.raises" % bip, viapub, "a node")
@@ -603,6 +654,8 @@ def chk_spell(case, rec, ctx):
             text = RB.path_text(path, marks or "H")
             rec.ev("subkey_for_path")
             rec.ev("spelling")
+            for mk in marks:
+                rec.ev("spelling.marker." + MARK_NAMES[mk])
             st, node = observe(lambda: m.subkey_for_path(text).hwif(as_private=True))
             if st != "ok" or node != exp:
                 return V("bip32.spelling_disagrees", {"spelling": text, "got": node}, exp)
@@ -616,6 +669,8 @@ def chk_spell(case, rec, ctx):
         except RB.Invalid:
             return
         rec.ev("subkeys")
+        for cls in range_classes(rtext):
+            rec.ev("range." + cls)
         st, got = observe(lambda: [n.hwif(as_private=True) for n in m.subkeys(rtext)])
         if st != "ok" or got != exp:
             return V("bip32.subkeys_range_mismatch", {"range": rtext, "got": got if st != "ok" else [g for g in got][:8]}, exp[:8])
@@ -623,9 +678,33 @@ def chk_spell(case, rec, ctx):
         if all(i < HARD for p in paths for i in p):
             expp = [RB.to_text(RB.derive(rm.neuter(), p), pub, False) for p in paths]
             rec.ev("subkeys")
+            rec.ev("subkeys.public_root")
             st, got = observe(lambda: [n.hwif() for n in m.public_copy().subkeys(rtext)])
             if st != "ok" or got != expp:
                 return V("bip32.subkeys_range_mismatch.public", {"range": rtext, "got": got if st != "ok" else got[:8]}, expp[:8])
+
+
+def range_classes(rtext):
+    """syntactic classes of a range expression: A-B items, comma lists, hardened items (per marker), comma lists whose items
+    do not all carry the same hardening"""
+    out = set()
+    for comp in rtext.split("/"):
+        items = comp.split(",")
+        if len(items) > 1:
+            out.add("comma_list")
+            if len({it[-1:] in ("H", "p", "'") for it in items}) > 1:
+                out.add("mixed_hardening")
+        for it in items:
+            if it[-1:] in MARK_NAMES:
+                out.add("hardened")
+                out.add("marker." + MARK_NAMES[it[-1:]])
+                if "-" in it:
+                    out.add("hardened_dash")
+            if "-" in it:
+                out.add("dash")
+    if "/" in rtext:
+        out.add("multi_component")
+    return sorted(out)
 
 
 def gen_range(rng):
@@ -691,6 +770,8 @@ def chk_cache(case, rec, ctx):
     def summary(n):
         f = fields_of(n, rec)
         return [f["secret"], f["public_pair"], f["chain_code"], f["depth"], f["parent_fingerprint"], f["child_number"]]
+    rec.ev("cache.public_parent" if public else "cache.private_parent")
+    seen = set()
     for k, call in enumerate(case["calls"]):
         i, hard, ap = call[:3]
         q_before, q_child = (call[3], call[4]) if len(call) >= 5 else ([], [])
@@ -698,6 +779,15 @@ def chk_cache(case, rec, ctx):
         do_queries(shared, q_before, rec, ctx)
         rec.ev("subkey")
         rec.ev("cache_call")
+        eff = (i, bool(hard), (not public) if as_private is None else as_private)
+        if eff in seen:
+            rec.ev("cache.repeat")                       # the very same request once more on the same node
+        elif (eff[0], eff[1], not eff[2]) in seen:
+            rec.ev("cache.same_child_other_half")        # same child number, other half asked before
+        if as_private is None and (i, bool(hard), "explicit") in seen or as_private is not None and (i, bool(hard), "default") in seen:
+            rec.ev("cache.default_vs_explicit")
+        seen.add(eff)
+        seen.add((i, bool(hard), "default" if as_private is None else "explicit"))
         st, got = observe(shared.subkey, i, bool(hard), as_private)
         st_f, fresh = node_from_text(ctx, code, "bip32", own_text, rec)
         if st_f != "ok" or fresh is None:
@@ -707,6 +797,9 @@ def chk_cache(case, rec, ctx):
             if st == "ok":
                 return V("bip32.hardened_from_public_accepted", {"call": k, "args": [i, hard, ap]}, "an exception")
             continue
+        if rbase.k is None and as_private and st != "ok" and st_f != "ok":
+            rec.ev("cache.public_parent_asked_private.refused")      # a public-only parent asked for a private child:
+            continue                                                 # refusing (on both nodes alike) is not forbidden
         if st != "ok":
             return V("bip32.cache.call_raises" if st_f == "ok" else "bip32.subkey_raises", {"call": k, "exc": got}, "a node")
         if st_f != "ok":
@@ -756,8 +849,9 @@ def chk_cache(case, rec, ctx):
             d = diff_fields(f, rch, rbase.k is not None)
             if d:
                 return V("bip32.children.%s" % d[0], {"args": case["children"], "child_number": ci, "got": d[1]}, d[2])
-        if st == "ok" and yielded == 0:
-            return V("bip32.children_empty", {"args": case["children"]}, "at least one child")
+        if yielded:
+            rec.ev("children.yielded")      # which (and how many) numbers children() hands out is not judged; that the
+                                            # workload reached at least one judged child is required of the run
     # a public copy taken AFTER the history (whatever the node cached so far must not leak into it): every hardened call
     # must be refused, every normal call must equal the reference public derivation
     if rbase.k is not None:
@@ -783,9 +877,19 @@ def chk_cache(case, rec, ctx):
             d = diff_fields(fields_of(got, rec), rch, False)
             if d:
                 return V("bip32.late_public_copy.%s" % d[0], {"call": k, "args": [i, hard, ap], "got": d[1]}, d[2])
-    # grandchildren through cached children, in two orders
+    # grandchildren through cached children, in two orders; the same path with and without the documented '.pub' suffix, in
+    # either order, on the same node (the fresh node sees each request as its first)
+    asked = set()
     for text in case.get("paths", []):
         rec.ev("subkey_for_path")
+        force_public = text.endswith(".pub")
+        plain = text[:-4] if force_public else text
+        if rbase.k is not None:
+            if force_public and (plain, False) in asked:
+                rec.ev("cache.path_then_dot_pub")
+            if not force_public and (plain, True) in asked:
+                rec.ev("cache.dot_pub_then_path")
+        asked.add((plain, force_public))
         st, a = observe(lambda: shared.subkey_for_path(text))
         st_f, fresh = node_from_text(ctx, code, "bip32", own_text, rec)
         st_f, b = observe(lambda: fresh.subkey_for_path(text))
@@ -795,11 +899,11 @@ def chk_cache(case, rec, ctx):
             return V("bip32.cache_not_transparent", {"path": text, "shared_node": summary(a), "fresh_node": summary(b)}, "equal")
         if st == "ok":
             try:
-                rp = RB.derive(rbase, RB.parse_path(text))
+                rp = RB.derive(rbase, RB.parse_path(plain))
             except (RB.Invalid, RB.Refused):
                 rp = None
             if rp is not None:
-                d = diff_fields(fields_of(a, rec), rp, rbase.k is not None)
+                d = diff_fields(fields_of(a, rec), rp, rbase.k is not None and not force_public)
                 if d:
                     return V("bip32.history.path.%s" % d[0], {"path": text, "got": d[1]}, d[2])
     # nothing that was asked changed the node itself
@@ -813,6 +917,7 @@ def chk_cache(case, rec, ctx):
 
 def run_cache(spec, rec, ctx):
     rng = shard_rng(spec["seed"], PROPERTY, spec["tier"], spec["shard"])
+    rng2 = shard_rng(spec["seed"], PROPERTY, spec["tier"], spec["shard"], "dot-pub")     # later additions draw here: the first stream stays
     for k in range(spec["n"]):
         pool = [rng.choice(EDGE_INDICES) for _ in range(2)] + [rng.randrange(HARD)]
         calls = []
@@ -830,6 +935,12 @@ def run_cache(spec, rec, ctx):
         for _ in range(rng.choice([0, 2, 4])):
             p = [rng.choice(pool) + (HARD if rng.random() < 0.3 else 0), rng.choice(pool)]
             paths.append(RB.path_text(p, rng.choice("Hp'")))
+        for _ in range(rng2.choice([0, 1, 1, 2])):      # one path asked with and without '.pub', in either order
+            p = RB.path_text([rng2.choice(pool) + (HARD if rng2.random() < 0.3 else 0), rng2.choice(pool)], rng2.choice("Hp'"))
+            pair = [p, p + ".pub"]
+            if rng2.random() < 0.5:
+                pair.reverse()
+            paths = paths + pair + ([pair[0]] if rng2.random() < 0.3 else [])
         case = {"kind": "cache", "net": rng.choice(["BTC", "XTN", rng.choice(ctx.codes)]), "seed": gen_seed(rng, k + 1),
                 "base": [gen_index(rng) for _ in range(rng.choice([0, 0, 1, 2]))], "public": rng.random() < 0.4,
                 "calls": calls, "paths": paths}
@@ -855,6 +966,7 @@ def chk_electrum(case, rec, ctx):
     def V(mech, observed, expected):
         rec.violation(mech, case, observed, expected)
     rec.ev("electrum.wallet")
+    rec.ev("electrum.from_seed" if case.get("seed") is not None else "electrum.from_master_private_key")
     if case.get("seed") is not None:
         st, w = observe(net.keys.electrum_seed, seed=case["seed"][5:])      # "seed:" + 32 hex digits
     else:
@@ -878,6 +990,8 @@ def chk_electrum(case, rec, ctx):
         return V("electrum.construct_raises", pw2, "a wallet")
     for path in case["paths"]:
         rec.ev("electrum.subkey")
+        rec.ev("electrum.path.change" if path.endswith("/1") else "electrum.path.receiving" if (path.endswith("/0") or "/" not in path)
+               else "electrum.path.other_branch")
         st, a = observe(lambda: tuple(w.subkey(path).public_pair()))
         for which, pub in (("public_copy", pw), ("from_master_public_key", pw2)):
             st2, b = observe(lambda: tuple(pub.subkey(path).public_pair()))
@@ -895,7 +1009,9 @@ def chk_electrum(case, rec, ctx):
         rec.ev("electrum.subkeys")
         st, a = observe(lambda: [tuple(x.public_pair()) for x in w.subkeys(r)])
         st2, b = observe(lambda: [tuple(x.public_pair()) for x in pw.subkeys(r)])
-        if st != "ok" or st2 != "ok" or a != b or not a:
+        if st == "ok" and st2 == "ok" and a:
+            rec.ev("electrum.subkeys.nonempty")
+        if st != "ok" or st2 != "ok" or a != b:
             return V("electrum.commute_mismatch.subkeys", {"range": r, "private_side": a if st != "ok" else len(a), "public_side": b if st2 != "ok" else len(b)}, "equal")
 
 
@@ -926,7 +1042,7 @@ def run_electrum(spec, rec, ctx):
 # path / steps / subkeys() / children(), public copies, '.pub', public child of a private parent, child of a public-only
 # parent that was itself read from text, nodes read back from any of those texts), as one history per node (all
 # spellings in a shuffled order with repeats).  Each text must be the reference text of that flavour and must come
-# back, through every documented parse entry point for it, as a node of the same class with every field.
+# back, through every documented parse entry point for it, as a node of the same flavour (judged by the texts it hands out) with every field.
 
 _B58RUN = re.compile("[%s]{100,120}" % B58.ALPHABET)
 
@@ -1030,10 +1146,16 @@ def judge_text_ops(node, names, ref, private, vers, bip, rec, V, where):
             allowed = [RB.payload(ref, False)] + ([RB.payload(ref, True)] if private else [])
             if want_private is not None:
                 allowed = [RB.payload(ref, want_private)]
-            if got not in allowed or not isinstance(got, bytes):
+            if isinstance(got, (bytearray, memoryview)):
+                got = bytes(got)          # "a 74-byte binary blob": the octets are fixed, the type carrying them is not
+            if not isinstance(got, bytes) or got not in allowed:
                 V("%s.text.serialize_mismatch" % bip, dict(what, got=got), allowed[-1])
                 return False
     return True
+
+
+class _NotYielded(Exception):
+    """children() ended without handing out the child number looked for"""
 
 
 def chk_text(case, rec, ctx):
@@ -1100,8 +1222,15 @@ def chk_text(case, rec, ctx):
             for ch in parent.children(max_level=0, start_index=i & (HARD - 1), include_hardened=i >= HARD):
                 if ch.child_index() == i:
                     return ch
-            raise LookupError("children() did not yield child number %d" % i)
+            raise _NotYielded()
         st, node = observe(via_children)
+        if st != "ok" and isinstance(node, _NotYielded):
+            # which child numbers children() hands out is not judged (see ASSUMPTIONS): take the ordinary route instead
+            rec.ev("children.not_yielded")
+            how = "path"
+            st, node = observe(root.subkey_for_path, ptext)
+        elif st == "ok":
+            rec.ev("children.yielded")
     else:
         rec.ev("subkey_for_path")
         st, node = observe(root.subkey_for_path, ptext)
@@ -1171,9 +1300,8 @@ def chk_text(case, rec, ctx):
                 where = {"on": label, "via": via, "private": want_private}
                 if st != "ok" or back is None or not hasattr(back, "tree_depth"):
                     return V("%s.roundtrip.parse_failed" % bip, dict(where, got=back if st != "ok" else repr(back)[:100]), "a node for %s" % text)
-                expected_class = type(n) if want_private == private else type(pc)
-                if type(back) is not expected_class:
-                    return V("%s.roundtrip.class_changed" % bip, dict(where, got=type(back).__name__), expected_class.__name__)
+                # the variant (flavour) of the node read back is judged by what the statement names: the texts it hands out
+                # (BACK_OPS below, both halves) and the texts of a child derived from it; not by the identity of its Python class
                 rback = ref if want_private else ref.neuter()
                 d = diff_fields(fields_of(back, rec), rback, want_private)
                 if d:
@@ -1228,17 +1356,81 @@ def run_text(spec, rec, ctx):
 
 
 # ---------------------------------------------------------------------------------------------------------
+# kind "vectors": the published BIP32 test vectors as LITERAL texts on the network they were published for (BTC), and the
+# version bytes the BIP assigns to testnet (XTN).  Everywhere else the 4 version bytes are read from the network's own
+# configuration, so a wrong constant there would be consistent between hwif and parse and go unnoticed.
+
+def chk_vectors(case, rec, ctx):
+    code, vi = case["net"], case["vector"]
+    if code not in ctx.nets:
+        return
+    net = ctx.nets[code]
+    seed_hex, chains = RB.VECTORS[vi]
+    seed = bytes.fromhex(seed_hex)
+    rec.case(("vectors", code, vi), nontrivial=True)
+
+    def V(mech, observed, expected):
+        rec.violation(mech, case, observed, expected)
+    st, m = observe(net.keys.bip32_seed, seed)
+    if st != "ok":
+        return V("bip32.master_raises", m, "a node")
+    rm = RB.master(seed)
+    for ptxt, xpub, xprv in chains:
+        rn = RB.derive(rm, RB.parse_path(ptxt))
+        if code == "XTN":
+            xprv, xpub = RB.to_text(rn, RB.TESTNET_PRV, True), RB.to_text(rn, RB.TESTNET_PUB, False)
+        rec.ev("vector_node." + code)
+        st, node = observe(m.subkey_for_path, ptxt)
+        if st != "ok":
+            return V("bip32.subkey_for_path_raises", node, "a node")
+        for private, lit in ((True, xprv), (False, xpub)):
+            half = "prv" if private else "pub"
+            st, t = observe(node.hwif, as_private=private)
+            if st != "ok" or t != lit:
+                return V("bip32.vector.text_mismatch." + half, {"path": ptxt, "got": t}, lit)
+            rec.ev("parse.bip32")
+            st, back = observe(net.parse.bip32, lit)
+            if st != "ok" or back is None or not hasattr(back, "tree_depth"):
+                return V("bip32.vector.parse_failed." + half, {"path": ptxt, "got": back}, "a node for %s" % lit)
+            d = diff_fields(fields_of(back, rec), rn, private)
+            if d:
+                return V("bip32.vector.parse.%s" % d[0], {"path": ptxt, "text": lit, "got": d[1]}, d[2])
+            st, t = observe(back.hwif, as_private=private)
+            if st != "ok" or t != lit:
+                return V("bip32.vector.roundtrip.text_changed." + half, {"path": ptxt, "got": t}, lit)
+
+
+def run_vectors(spec, rec, ctx):
+    for code in ("BTC", "XTN"):
+        for vi in range(len(RB.VECTORS)):
+            chk_vectors({"kind": "vectors", "net": code, "vector": vi}, rec, ctx)
+
+
+# ---------------------------------------------------------------------------------------------------------
 
 KINDS = {"derive": (run_derive, chk_derive), "nets": (run_nets, chk_synthetic), "spell": (run_spell, chk_spell),
-         "cache": (run_cache, chk_cache), "electrum": (run_electrum, chk_electrum), "text": (run_text, chk_text)}
+         "cache": (run_cache, chk_cache), "electrum": (run_electrum, chk_electrum), "text": (run_text, chk_text),
+         "vectors": (run_vectors, chk_vectors)}
 REQUIRED = {
     "derive": ["from_master_secret", "subkey_for_path", "subkey", "hwif", "public_copy", "commutation", "hardened_from_public",
                "parse.bip32", "accessor.secret", "accessor.public_pair", "accessor.chain_code", "accessor.depth",
-               "accessor.parent_fingerprint", "accessor.child_number", "query"],
-    "nets": ["parse.bip32", "parse.bip49", "parse.bip84", "hwif", "subkey", "query"],
-    "spell": ["spelling", "subkeys"],
-    "cache": ["cache_call", "query", "children"],
-    "electrum": ["electrum.subkey", "electrum.commutation"],
+               "accessor.parent_fingerprint", "accessor.child_number", "query",
+               # the regions of the quantified domain ("indices 0..2^31-1 hardened or not", "any depth", spellings H p ')
+               "index.hardened", "index.normal", "index.ge_2^24", "index.max", "depth.2..8", "marker.H", "marker.p", "marker.tick",
+               "commutation.nonempty_tail", "commutation.below_hardened"],
+    "nets": ["parse.bip32", "parse.bip49", "parse.bip84", "hwif", "subkey", "query", "network_flavour.bip32",
+             "nets.roundtrip.bip32.prv", "nets.roundtrip.bip32.pub", "nets.hardened_from_public.bip32", "nets.commutation.bip32",
+             "nets.roundtrip.bip49.prv", "nets.roundtrip.bip49.pub", "nets.hardened_from_public.bip49", "nets.commutation.bip49",
+             "nets.roundtrip.bip84.prv", "nets.roundtrip.bip84.pub", "nets.hardened_from_public.bip84", "nets.commutation.bip84"],
+    "spell": ["spelling", "subkeys", "spelling.marker.H", "spelling.marker.p", "spelling.marker.tick", "subkeys.public_root",
+              "range.dash", "range.comma_list", "range.hardened", "range.hardened_dash", "range.mixed_hardening",
+              "range.multi_component", "range.marker.H", "range.marker.p", "range.marker.tick"],
+    "cache": ["cache_call", "query", "children", "children.yielded", "cache.repeat", "cache.same_child_other_half",
+              "cache.default_vs_explicit", "cache.public_parent", "cache.private_parent", "late_public_copy_call",
+              "cache.path_then_dot_pub", "cache.dot_pub_then_path"],
+    "electrum": ["electrum.subkey", "electrum.commutation", "electrum.subkeys", "electrum.subkeys.nonempty", "electrum.from_seed",
+                 "electrum.from_master_private_key", "electrum.path.change", "electrum.path.receiving"],
+    "vectors": ["vector_node.BTC", "vector_node.XTN"],
     "text": ["text.hwif", "text.as_text", "text.repr", "text.str", "text.ku_output", "text.serialize", "text.roundtrip", "deserialize",
              "parse.bip32", "parse.bip49", "parse.bip84", "parse.bip49.split", "parse.bip84.split", "parse.hierarchical_key",
              "parse.secret", "parse.call", "parse.bip32_seed", "public_copy", "subkeys", "children"],
@@ -1252,7 +1444,10 @@ def run_shard(spec, rec):
     if kind == "nets":      # a part may hold no bip49/bip84 pair
         todo = [(c, b) for c in ctx.codes for b in BIPS if b in ctx.prefixes[c]]
         have = {b for i, (c, b) in enumerate(todo) if i % spec["parts"] == spec["part"]}
-        need = [n for n in need if not n.startswith("parse.") or n[6:] in have]
+        need = [n for n in need if not set(n.split(".")) & (set(BIPS) - have)]
+    if kind == "derive" and spec["shard"] == 0:
+        need.append("depth.255")         # the one path of 255 steps is driven by the first shard
+        need += REQUIRED["vectors"]      # and so are the published vectors
     rec.require(*need)
     KINDS[kind][0](spec, rec, ctx)
 
